@@ -22,6 +22,7 @@ func propC01() *Property {
 			{ID: "R01.4", Floor: 2, Text: "runOutputOnceStream transmits with oLock held; closeWithError's direct transmission too", Run: r01_4},
 			{ID: "R01.5", Floor: 3, Text: "splitting loops are consume loops", Run: r01_5},
 			{ID: "R01.6", Floor: 3, Text: "dispatch key, single producer of recvQueue on TCP, no silent drop on a full queue", Run: r01_6},
+			{ID: "R01.12", Floor: 4, Text: "Close after Write loses nothing that was written: a graceful close queues its close request behind the pending data before anything is discarded, in every live state (shared with R03.1)", Run: r03_1},
 			{ID: "R01.11", Floor: 3, Text: "handshake parsers read the proxy connection itself, never through a read-ahead wrapper that is then dropped", Run: r01_11},
 			{ID: "R01.7", Floor: 5, Text: "Session.Read is a consume loop: copy(b[n:], src); n += copied; src[copied:] kept in unreadBuf; older tail before newer segment; under rLock", Run: r01_7},
 			{ID: "R01.8", Floor: 4, Text: "fragment sizes fit the length field (shared with R14.2)", Run: r14_2},
